@@ -8,6 +8,8 @@ CONF = {
     "mc": [
         {"module": "QuotaAccountingImpl", "cfg": {"quick": "MC_Impl_quick.cfg", "thorough": "MC_Impl_quick.cfg"}, "timeout": 900},
         {"module": "QuotaAccountingImpl", "cfg": {"quick": None, "thorough": "MC_Impl_thorough.cfg"}, "timeout": 2400},
+        # schedules clause: every interleaving of the lock / apply / unlock sub-steps of concurrent delta propagations
+        {"module": "MC_Locking", "cfg": "MC_Locking.cfg", "timeout": 300},
     ],
     "gen": [
         {"module": "Gen_QuotaAccounting", "cfg": {"quick": "Gen_C01_quick.cfg", "thorough": "Gen_C01_thorough.cfg"}, "timeout": 1200},
